@@ -9,8 +9,9 @@ rows = [json.load(open(f)) for f in sorted(glob.glob(os.path.join(HERE, "seeded"
 out = ["# Seeded changes", "",
        "Each directory holds one change that breaks a property while the tree still imports and the pinned 209-test suite still",
        "passes. They were produced by independent sub-agents that were given only the text of one property and a scratch git",
-       "worktree of /repo (prompt of round 2: `PROMPT.round2.txt`; round 1 asked for one change, round 2 for three of different",
-       "kinds). A change was kept only after `tools/eval_seed.py` confirmed it in a fresh scratch worktree: demo passes on the",
+       "worktree of /repo (prompts: `PROMPT.round2.txt`, `PROMPT.round3.txt`; round 1 asked for one change, round 2 for three of",
+       "different kinds, round 3 for one outside the anchored code, one subtle slip inside it, and one pair of cooperating edits or",
+       "a stale cache / aliasing copy). A change was kept only after `tools/eval_seed.py` confirmed it in a fresh scratch worktree: demo passes on the",
        "unchanged tree, patch applies, test suite passes with it, demo fails with it. None of them is committed to /repo.", "",
        "* `patch.diff` - the change (applies to /repo with `git -C /repo apply`; undo with `git -C /repo checkout -- .`)",
        "* `demo.py` - the demonstration (`meta.json: demo_path` says where it has to live relative to the tree root)",
@@ -37,6 +38,10 @@ for r in rows:
 out += ["", "## Discarded", "",
         "* S2-C13-2 (`WorkerPool.place_task` without a strategy takes the LAST fitting strategy): confirmed against the tree of its",
         "  time, where LSF debited its scratch pool through `place_task(task)`. That call was itself a defect (F19) and was repaired;",
-        "  afterwards no policy reaches the changed branch, the demo passes with the patch, and the change no longer breaks C13.", ""]
+        "  afterwards no policy reaches the changed branch, the demo passes with the patch, and the change no longer breaks C13.",
+        "* S2-C06-2 (`Graph.depth_first` without the re-test after the pop) and S2-C18-2 (join released only when every non-cancelled",
+        "  parent is complete): both demos relied on `TaskGraph.cancel` stopping at the first spared join. That behaviour was itself a",
+        "  defect (F21) and was repaired (the cascade no longer uses `depth_first`, and it no longer leaves inner joins behind), after",
+        "  which `tools/reconfirm_seeds.py` showed both demos passing with the patch applied. (S2-C06-2 is still reported by C17.R1.)", ""]
 open(os.path.join(HERE, "seeded", "README.md"), "w").write("\n".join(out))
 print(len(rows), "seeds")
